@@ -175,7 +175,8 @@ structure StepsSim (c : Ctx) (cfg : Cfg) (p : Nat) (ss : List Step) : Prop where
           execFrom c ⟨groupItems c.acc groups ++ stk, sv, rt, tb', te'⟩ rest
   err : ∀ e, stepsPre c.env cfg (stepsT ss) = .error e →
     ∀ (stk : List Item) (sv : List (List Item)) (rt : Option (List N)) (tb te : Nat), stk ≠ [] →
-      ∃ pos, ∀ rest, execFrom c ⟨stk, sv, rt, tb, te⟩ (tkSteps p ss ++ rest) = .error (stopOf pos e)
+      ∀ rest, execFrom c ⟨stk, sv, rt, tb, te⟩ (tkSteps p ss ++ rest) =
+        .error (stopOf (posSteps c.env cfg p ss) e)
 
 theorem stepsSim_of (c : Ctx) (cfg : Cfg) : ∀ (ss : List Step) (p : Nat) (r : List Char),
     (∀ s ∈ ss, StepSim c cfg false s) → Sfx c.input p (steps ss ++ r) → StepsSim c cfg p ss := by
@@ -219,9 +220,10 @@ theorem stepsSim_of (c : Ctx) (cfg : Cfg) : ∀ (ss : List Step) (p : Nat) (r : 
       | error e1 =>
         rw [h1] at he
         cases he
-        obtain ⟨pos, e1'⟩ := hs1.err _ h1 stk sv rt tb te hstk
-        refine ⟨pos, fun rest => ?_⟩
+        have e1' := hs1.err _ h1 stk sv rt tb te hstk
+        intro rest
         simp only [tkSteps, List.append_assoc]
+        rw [posSteps, h1]
         exact e1' _
       | ok a =>
         rw [h1] at he
@@ -231,10 +233,10 @@ theorem stepsSim_of (c : Ctx) (cfg : Cfg) : ∀ (ss : List Step) (p : Nat) (r : 
           rw [h3] at he
           cases he
           obtain ⟨tb1, te1, e1⟩ := hs1.ok a h1 stk sv rt tb te hstk
-          obtain ⟨pos, e2'⟩ := hs2.err _ h3 ([Item.chain (a.map (rawOf c.acc))] ++ stk) sv rt tb1 te1 (by simp)
-          refine ⟨pos, fun rest => ?_⟩
+          have e2' := hs2.err _ h3 ([Item.chain (a.map (rawOf c.acc))] ++ stk) sv rt tb1 te1 (by simp)
+          intro rest
           simp only [tkSteps, List.append_assoc]
-          rw [e1]
+          rw [e1, posSteps, h1]
           exact e2' _
 
 /-! ### `setNodeChain` over the groups -/
